@@ -301,6 +301,16 @@ def report(prop, tier, seed, t0, results, meta, args):
         with open(rp, "w") as f:
             json.dump(rec, f, indent=1, default=repr)
         nat = native_replay(modname, fname, rp)
+        if nat.get("verdict") != "confirmed" and not os.environ.get("PYVC_NO_SEARCH"):
+            # the solver's model is a state inside the function (e.g. an arbitrary loop
+            # iteration) that the replay could not reach from the harness inputs: search
+            # for a concrete failing input of the same harness on the real code
+            fz = native_fuzz(modname, fname, 4000 if tier == "quick" else 40000, seed, 45 if tier == "quick" else 300)
+            if fz.get("verdict") == "confirmed":
+                rec["solver_model"] = rec["model"]
+                rec["model"] = fz["model"]
+                rec["found_by"] = "solver refuted the obligation; failing input found by a native search of the same harness"
+                nat = fz
         rec["native"] = nat
         with open(rp, "w") as f:
             json.dump(rec, f, indent=1, default=repr)
@@ -328,6 +338,26 @@ def report(prop, tier, seed, t0, results, meta, args):
             known_hit.append((kf, rp, fz))
         else:
             violations.append((short, {"label": lab, "where": "bounded stand-in", "model": fz["model"]}, rp, fz))
+
+    # undecided obligations: a native search of the same harness may still produce a failing
+    # input on the real code (then it is a violation); it can never turn `unknown` into `proved`
+    if unknown and not violations and not os.environ.get("PYVC_NO_SEARCH"):
+        seen_h = set()
+        for h, c in unknown:
+            if h in seen_h:
+                continue
+            seen_h.add(h)
+            modname, fname = h.rsplit(".", 1)
+            short = h.split(".", 1)[1] if h.startswith("contracts.") else h
+            fz = native_fuzz(modname, fname, 4000 if tier == "quick" else 40000, seed, 45 if tier == "quick" else 300)
+            if fz.get("verdict") == "confirmed":
+                lab = fz["failed"][0]["label"]
+                rp = os.path.join(VERIF, "replays", prop, (fname + ".search." + lab).replace("/", "_")[:150] + ".json")
+                with open(rp, "w") as f:
+                    json.dump({"property": prop, "harness": h, "obligation": f"{short}:{lab}", "found_by": "obligation undecided by the solvers; failing input found by a native search of the same harness",
+                               "undecided": c["label"], "model": fz["model"], "native": fz,
+                               "how_to_replay": f"PYTHONPATH=/verif:/repo/src /venv/bin/python -m pyvc.native {modname} {fname} {rp}"}, f, indent=1, default=repr)
+                violations.append((short, {"label": lab, "where": "native search after solver unknown", "model": fz["model"]}, rp, fz))
 
     wall = time.time() - t0
     n_ob = len(obligations)
